@@ -33,7 +33,7 @@ Proof. destruct i; cbn; auto; discriminate. Qed.
 
 (* consequences of the shape for the instruction at the head *)
 Definition is_macro (i : instr) : bool :=
-  match i with ITest | IRdHooks _ | IStart | IStop => true | _ => false end.
+  match i with ITest | IRdHooks _ | IStart | IStop | ILoop | ICheckDone | IStopA _ => true | _ => false end.
 
 Lemma shape_step i r : shape_ok (i :: r) ->
   shape_ok r
@@ -72,11 +72,16 @@ Lemma exec_shape rep t s ts r i s' ts' :
   shape_ok (i :: r) -> exec rep t s (set_prog ts r) i = Some (s', ts') -> shape_ok (prog ts').
 Proof.
   intros Sh He. destruct (shape_step _ _ Sh) as [Sr [_ [_ Sn]]].
-  destruct (exec_prog_cases _ _ _ _ _ _ _ _ He) as [H|[[Hi H]|[[c [h [Hi H]]]|[[Hi H]|[Hi H]]]]]; rewrite H; subst; auto.
+  destruct (exec_prog_cases _ _ _ _ _ _ _ _ He)
+    as [[H _]|[[Hi H]|[[c [h [Hi H]]]|[[Hi H]|[[Hi H]|[[Hi H]|[[Hi H]|[[rt [Hi H]]|[rt [Hi H]]]]]]]]]]; rewrite H; subst; auto.
   - exists flush_seq, r. split; auto. split; [apply Sn; reflexivity | cbn; auto 6].
   - apply shape_nowrite. rewrite nowrite_app, nowrite_print_rest. apply Sn; reflexivity.
   - apply shape_nowrite. rewrite nowrite_app. cbn. apply Sn; reflexivity.
   - apply shape_nowrite. rewrite nowrite_app. cbn. apply Sn; reflexivity.
+  - apply shape_nowrite. rewrite nowrite_app. cbn. apply Sn; reflexivity.
+  - apply shape_nowrite. rewrite nowrite_app. cbn. apply Sn; reflexivity.
+  - apply shape_nowrite. rewrite nowrite_app. cbn. apply Sn; reflexivity.
+  - apply shape_nowrite. cbn. apply Sn; reflexivity.
 Qed.
 
 (* ---- the window between _record_buffer.extend and file.write *)
@@ -126,6 +131,8 @@ Proof.
   - inversion He; subst; clear He. destruct (is_nil (buf ts)); [repeat split; reflexivity|].
     cbn [file record set_record lkC]. rewrite written_part_app. cbn. rewrite app_nil_r. auto.
   - destruct (hooks s); inversion He; subst; repeat split; reflexivity.
+  - destruct (existsb (Nat.eqb t0) (fin s)); inversion He; subst; repeat split; reflexivity.
+  - destruct (done s); inversion He; subst; repeat split; reflexivity.
 Qed.
 
 Lemma in_window_expansions rep h c r :
@@ -275,6 +282,26 @@ Proof.
     rewrite F, W, L, R. destruct (lkC (sh st)) as [[u n]|]; auto. unfold upd. destruct (Nat.eqb u t) eqn:E; auto.
     apply Nat.eqb_eq in E. subst u. rewrite Ep. cbn [in_window andb]. inversion Ee; subst. cbn [prog set_prog].
     destruct (in_window r) eqn:Wd; auto; destruct (S1 eq_refl) as [X|[X _]]; discriminate X.
+  - (* ISetDone *) other.
+    rewrite F, W, L, R. destruct (lkC (sh st)) as [[u n]|]; auto. unfold upd. destruct (Nat.eqb u t) eqn:E; auto.
+    apply Nat.eqb_eq in E. subst u. rewrite Ep. cbn [in_window andb]. inversion Ee; subst. cbn [prog set_prog].
+    all: destruct (in_window r) eqn:Wd; auto; destruct (S1 eq_refl) as [X|[X _]]; discriminate X.
+  - (* IJoin *) other.
+    rewrite F, W, L, R. destruct (lkC (sh st)) as [[u n]|]; auto. unfold upd. destruct (Nat.eqb u t) eqn:E; auto.
+    apply Nat.eqb_eq in E. subst u. rewrite Ep. cbn [in_window andb]. cbn [exec] in Ee. destruct (existsb (Nat.eqb t0) (fin (sh st))); inversion Ee; subst. cbn [prog set_prog].
+    all: destruct (in_window r) eqn:Wd; auto; destruct (S1 eq_refl) as [X|[X _]]; discriminate X.
+  - (* ILoop *) other.
+    rewrite F, W, L, R. destruct (lkC (sh st)) as [[u n]|]; auto. unfold upd. destruct (Nat.eqb u t) eqn:E; auto.
+    apply Nat.eqb_eq in E. subst u. rewrite Ep. cbn [in_window andb]. cbn [exec] in Ee. destruct (done (sh st)); inversion Ee; subst; cbn [prog set_prog tick_seq app in_window andb]; auto.
+    all: destruct (in_window r) eqn:Wd; auto; destruct (S1 eq_refl) as [X|[X _]]; discriminate X.
+  - (* ICheckDone *) other.
+    rewrite F, W, L, R. destruct (lkC (sh st)) as [[u n]|]; auto. unfold upd. destruct (Nat.eqb u t) eqn:E; auto.
+    apply Nat.eqb_eq in E. subst u. rewrite Ep. cbn [in_window andb]. inversion Ee; subst. match goal with |- context [done ?x] => destruct (done x) end; cbn [prog set_prog refresh_seq app in_window andb]; auto.
+    all: destruct (in_window r) eqn:Wd; auto; destruct (S1 eq_refl) as [X|[X _]]; discriminate X.
+  - (* IStopA *) other.
+    rewrite F, W, L, R. destruct (lkC (sh st)) as [[u n]|]; auto. unfold upd. destruct (Nat.eqb u t) eqn:E; auto.
+    apply Nat.eqb_eq in E. subst u. rewrite Ep. cbn [in_window andb]. inversion Ee; subst. match goal with |- context [started ?x] => destruct (started x) end; cbn [prog set_prog stopa_rest app in_window andb]; auto.
+    all: destruct (in_window r) eqn:Wd; auto; destruct (S1 eq_refl) as [X|[X _]]; discriminate X.
 Qed.
 
 Lemma init_rinv live sh0 r0 progs : RInv (init_state live sh0 r0 progs).
